@@ -131,6 +131,14 @@ _bounded('C10',
          "accepted by the checker, eval agrees; canonicity under rearrangement and idempotence.",
          "Known finding recorded: proplogic.norm_full on members containing a literal and its negation.", '4 C10')
 
+_bounded('C17',
+         "Bounded stand-in (not a proof): CongClosure on all equation sets of <= 3 (thorough 4) constant / application "
+         "equations over 4 constants in ALL merge orders with interleaved queries, and on random sets up to 8 "
+         "constants: test(a, b) = entailment by a naive fix-point closure, explanations use only merged equations; "
+         "the HOL wrapper's explanations are re-checked by the kernel.",
+         "No deductive part (one global representation invariant over aliased dictionaries). Explanations the HOL "
+         "wrapper fails to build (exception) count as no answer.", '4 C17')
+
 NOT_APPLICABLE = {
     'C19': "real-analytic equality of integrals/limits/series with a numeric floating-point oracle; no decidable "
            "function contract (DESIGN 4 C19)",
